@@ -35,10 +35,12 @@ def value_violation(topo, enc, style, key, i, env, numeric, r):
 
 
 def work(item):
-    tj, style, seed, timeout_ms, engines = item
+    tj, style, seed, timeout_ms, engines = item[:5]
+    hist = item[5] if len(item) > 5 else "fresh"
+    builder = netcheck.history_builders()[hist]
     topo = T_.Topo.from_json(tj)
     rng = random.Random(seed)
-    acc = netcheck.Acc(topo.name)
+    acc = netcheck.Acc(topo.name if hist == "fresh" else f"{topo.name}[{hist}]")
     ref = ref_metanet.Ref(topo)
     D = ref_metanet.admissible_domain(topo)
     prover = discharge.Prover(timeout_ms=timeout_ms, seed=seed)
@@ -47,11 +49,11 @@ def work(item):
     encs = []
     try:
         if "numpy" in engines:
-            encs += netcheck.numpy_encodings(topo, style, None, D)
+            encs += netcheck.numpy_encodings(topo, style, None, D, builder=builder)
         numeric = netcheck.casadi_numeric_for(topo)
         for st in ("SX", "MX"):
             if st in engines:
-                e = netcheck.casadi_encoding(topo, st, numeric)
+                e = netcheck.casadi_encoding(topo, st, numeric, builder=builder)
                 e.extra["numeric"] = numeric
                 encs.append(e)
     except (symx.UnsupportedOp, symx.Inconclusive) as e:
@@ -131,6 +133,13 @@ def main():
                 items.append((t.to_json(), st, args.seed + k, timeout, ("numpy", "SX", "MX") if st == "array" else ("numpy",)))
         else:
             items.append((t.to_json(), styles[k % 2], args.seed + k, timeout, ("numpy", "SX", "MX")))
+    hs = ["decoy-attachments-replaced", "reads-interleaved", "decoy-links-replaced"]
+    for k, t in enumerate(families.curated()):
+        if args.only and args.only not in t.name:
+            continue
+        # the same equations on networks that were read / stepped / had elements replaced before this step
+        for h in (hs if args.thorough else [hs[k % 3]]):
+            items.append((t.to_json(), styles[(k + 1) % 2], args.seed + k, timeout, ("numpy", "SX"), h))
     results = harness.pmap(work, items, args.serial)
     viol, inc, tot, levels, samples, st_, extra_ = netcheck.summarize(results)
     tot["n_queries"] = tot["n_queries"]
